@@ -57,10 +57,13 @@ def main(ctx, replay=None):
     from cij.util import c_
     rng = numpy.random.default_rng(ctx.seed + 404)
     insts = sched.load_instances(ctx)
-    ctx.cov["rule"] = ("request sequences simulated by TLC (subset, order) x strain scenario (generic / e1=e2 / isotropic) x random "
-                       "spectrum; a case is (scenario, request sequence); non-trivial = at least one shear-type key or >=2 keys; "
-                       "distinct by (scenario, sequence).  Model: all requests <= MaxReq keys of a 9-key pool, every pop order.")
-    ctx.assumptions += ["strain values closer than allclose(rtol 1e-5) but not identical are not generated (DESIGN 4 C04 soundness note)",
+    ctx.cov["rule"] = ("request sequences simulated by TLC (subset, order) x strain field (generic / e1=e2 / isotropic / two fractions 3e-4 apart / "
+                       "equal at the grid ends only / rearranged along the grid) x random spectrum, every third request on a re-used task list; "
+                       "plus the scheduler run of the shipped example (thorough: of the repository's own tests); a case is (field, request "
+                       "sequence); non-trivial = at least one shear-type key or >=2 keys; distinct by (field, sequence).  Model: all requests "
+                       "<= MaxReq keys of a 9-key pool, every pop order.")
+    ctx.assumptions += ["synthetic strain fractions closer than the code's task equality (numpy.allclose, rtol 1e-5) but not identical are not generated; the "
+                        "shipped akimotoite data have two fractions 6e-8 apart, which the code merges: that run is validated against the e2 = e3 instance",
                         "float comparison of values across requests (rtol 1e-9 of the tensor scale)"]
 
     # ---- M: exhaustive model checking per scenario ------------------------------------------------------
